@@ -62,9 +62,9 @@ def _bufsize_job(comm, shape, nprocs, layouts):
 
 
 def has_idle_rank(c):
-    """Over-decomposed grids (more processes than points along a direction) are legal as long as every rank still owns
-    something in some layout; a rank with buffer size 0 takes itself for the plot-only rank and skips every collective
-    (TransposeMC.NoIdle; DESIGN 13.5).  Such configurations are not replayed."""
+    """Over-decomposed grids (more processes than points along a direction): does some rank own nothing in any layout?
+    (Such ranks used to take themselves for the plot-only rank and skip every collective - fixed, see known_findings.json;
+    the configurations are replayed like all others and counted.)"""
     from mpi4py import MPI
     if "over-decomposed" not in classify(c):
         return False
@@ -260,8 +260,8 @@ def run(ctx):
     tboxes = [("3-D ext<=3, P<=3, 2 layouts", tcfg % (3, 3, 3, 2, 0, "3", 3, 3)), ("sampled 3-D/4-D ext<=4, <=4 layouts", tcfg % (3, 1, 3, 2, 60 if quick else 600, "3,4", 4, 4))]
     if not quick:
         tboxes += [("3-D ext<=3, P<=3, 3 layouts", tcfg % (3, 3, 3, 3, 0, "3", 3, 3)), ("4-D ext<=2, P<=2, 2 layouts", tcfg % (4, 2, 2, 2, 0, "4", 2, 2))]
-    tboxes += [("sampled 3-D/4-D, process grids of every length, over-decomposed (no idle rank)",
-                tcfg % (3, 1, 3, 2, 80 if quick else 1500, "3,4", 4, 3) + "CONSTANT MaxNpLen <- MaxNpLenFull\nCONSTANT GridFits <- AnyFits\nCONSTRAINT NoIdle\n")]
+    tboxes += [("sampled 3-D/4-D, process grids of every length, over-decomposed (idle data ranks included)",
+                tcfg % (3, 1, 3, 2, 80 if quick else 1500, "3,4", 4, 3) + "CONSTANT MaxNpLen <- MaxNpLenFull\nCONSTANT GridFits <- AnyFits\n")]
     for what, cfg in tboxes:
         r = ctx.tlc("TransposeMC", cfg, what="Transpose refines LayoutAbs: " + what, seed=ctx.seed + 5, timeout=7200, big=not quick)
         ctx.log("TransposeMC %s: %d states in %.1fs %s" % (what, r.distinct, r.wall, r.violated or "ok"))
@@ -284,7 +284,7 @@ def run(ctx):
             cl = classify(c)
             if "over-decomposed" in cl and has_idle_rank(c):
                 idle_skipped[0] += 1
-                continue
+                cl = cl | {"idle-data-rank"}
             if cap is not None:
                 # stratified: keep while some class of this configuration is still under-represented
                 if all(per_class.get(x, 0) >= cap // 5 for x in cl) and len([1 for x in chosen if x[0] == what]) >= cap:
@@ -294,10 +294,10 @@ def run(ctx):
                 classes_seen[x] = classes_seen.get(x, 0) + 1
             chosen.append((what, c))
     ctx.extra["configurations_replayed"] = len(chosen)
-    ctx.extra["over_decomposed_configurations_with_an_idle_rank_not_replayed"] = idle_skipped[0]
+    ctx.extra["over_decomposed_configurations_with_an_idle_data_rank_replayed"] = idle_skipped[0]
     ctx.extra["classes"] = classes_seen
     for need in ("leading-extent-1", "equal-extents", "uneven-blocks", "multi-hop-route", "local-only-hop", "extent-equals-process-count",
-                 "three-axis-grid", "over-decomposed"):
+                 "three-axis-grid", "over-decomposed", "idle-data-rank"):
         if classes_seen.get(need, 0) == 0:
             raise Machinery("vacuity: no replayed configuration of class " + need)
     events, meta = [], []
@@ -325,8 +325,8 @@ def run(ctx):
         P = npr + [1] * (nd - nl)
         if int(np.prod(npr)) > 12:
             continue
-        if any(P[i] > sh[o[i] - 1] for o in lays for i in range(nd)) and (tries % 4 or has_idle_rank(c)):
-            continue            # over-decomposed grids: one candidate in four, and only without idle ranks
+        if any(P[i] > sh[o[i] - 1] for o in lays for i in range(nd)) and tries % 4:
+            continue            # over-decomposed grids: one candidate in four
         from harness.checks.c02 import connected
         if not connected({str(i): [d - 1 for d in o] for i, o in enumerate(lays)}, npr):
             continue
